@@ -23,4 +23,5 @@ Definition run (comp : Z) (inp : list Z) : list Z :=
   else if comp =? 42 then run_meta_bytes inp
   else if comp =? 43 then run_meta_from_bytes inp
   else if comp =? 44 then run_varint inp
+  else if comp =? 45 then run_meta_ok inp
   else [-3].
